@@ -117,6 +117,21 @@ def recordHashDelete (s : Shard) (k : Nat) (fields : List Nat) : Shard × Option
       ({ s with clock := r.1, keys := NMap.insert k rv' s.keys }, some rv')
     | _ => (s, none)
 
+/-- `record_hash_delete` as it would be if `ReplicatedValue::hash_delete` did NOT set
+    `self.timestamp = *clock` after tombstoning the fields (not the code that exists; the object of
+    `C08.hdel_keeps_outer_stamp_counterexample`): the field tombstones get fresh stamps, the
+    outer stamp stays behind them -/
+def recordHashDeleteKeepOuter (s : Shard) (k : Nat) (fields : List Nat) : Shard × Option RV :=
+  match NMap.get s.keys k with
+  | none => (s, none)
+  | some rv =>
+    match rv.crdt with
+    | .hash h =>
+      let r := fields.foldl hashDelStep (s.clock, h)
+      let rv' : RV := { rv with crdt := .hash r.2 }
+      ({ s with clock := r.1, keys := NMap.insert k rv' s.keys }, some rv')
+    | _ => (s, none)
+
 /-- `apply_remote_delta` -/
 def applyRemote (s : Shard) (k : Nat) (d : RV) : Shard :=
   let merged := match NMap.get s.keys k with
